@@ -255,6 +255,7 @@ type hostile struct {
 	follow     func(w *world) []interface{} // further typed messages of the same peer on the same channel, delivered right after
 	fresh      bool                         // the peer has not announced any round step yet (first message of a new connection)
 	mustIgnore bool                         // reference predicate: invalid under every reading => digest must not change
+	flood      int                          // > 0: the messages are a flood of one peer; the node may keep state for at most this many of them
 }
 
 const bigInt = 1<<31 - 1
@@ -348,6 +349,43 @@ func voteMutations() []hostile {
 				}
 				return &cs.VoteMessage{Vote: &v}
 			}})
+	}
+	return out
+}
+
+// voteFloods: one peer sends K votes for K different rounds the node does not track yet. Whatever the node thinks of the
+// votes, what it keeps for them is bounded per peer (two catch-up rounds): a third unknown round from the same peer is
+// refused, so state must not grow with K.
+func voteFloods() []hostile {
+	const K = 7
+	var out []hostile
+	for _, typ := range []byte{types.VoteTypePrevote, types.VoteTypePrecommit} {
+		typ := typ
+		for _, sigMode := range []string{"resigned", "garbage-sig", "nil-sig", "Index=n"} {
+			sigMode := sigMode
+			mk := func(w *world, i int) interface{} {
+				j := w.others[0]
+				v := *w.vote(j, typ, w.round()+2+i, w.ids[0])
+				switch sigMode {
+				case "garbage-sig":
+					v.Signature = crypto.SignatureEd25519FromBytes(garbage(64))
+				case "nil-sig":
+					v.Signature = nil
+				case "Index=n":
+					v.ValidatorIndex = len(w.f.Keys)
+				}
+				return &cs.VoteMessage{Vote: &v}
+			}
+			out = append(out, hostile{name: fmt.Sprintf("VoteFlood{t%d,%s,%d unknown rounds}", typ, sigMode, K), ch: cs.VoteChannel, flood: 2,
+				msg: func(w *world) interface{} { return mk(w, 0) },
+				follow: func(w *world) []interface{} {
+					var ms []interface{}
+					for i := 1; i < K; i++ {
+						ms = append(ms, mk(w, i))
+					}
+					return ms
+				}})
+		}
 	}
 	return out
 }
@@ -830,6 +868,7 @@ func runCase(f *csnet.Fixture, st state, hs []hostile, cont int) outcome {
 		vk.Catch(func() { w.re.Receive(cs.StateChannel, w.peer, bz) })
 	}
 	before := digest(w)
+	roundsBefore := w.n.CS.GetRoundState().Votes.VerifRoundCount()
 	names := []string{}
 	mustIgnore := true
 	for _, h := range hs {
@@ -876,6 +915,13 @@ func runCase(f *csnet.Fixture, st state, hs []hostile, cont int) outcome {
 					return o
 				}
 			}
+		}
+	}
+	if len(hs) == 1 && hs[0].flood > 0 {
+		if grown := w.n.CS.GetRoundState().Votes.VerifRoundCount() - roundsBefore; grown > hs[0].flood {
+			o.viol = [2]string{"unbounded-growth:round-vote-sets-kept-for-one-peers-votes:" + strings.Split(names[0], ",")[0] + "}",
+				fmt.Sprintf("in state %s the flood %s of ONE peer left %d new round vote sets in the height's vote bookkeeping (a peer is entitled to %d catch-up rounds): state grows with the number of messages", st.name, names[0], grown, hs[0].flood)}
+			return o
 		}
 	}
 	after := digest(w)
@@ -960,6 +1006,7 @@ func main() {
 	sts := states()
 	var typed []hostile
 	typed = append(typed, voteMutations()...)
+	typed = append(typed, voteFloods()...)
 	typed = append(typed, proposalMutations()...)
 	typed = append(typed, partMutations()...)
 	typed = append(typed, stateChannelMessages()...)
